@@ -62,6 +62,11 @@ def base_cases():
         dict(name="encode-error-2nd", expr=".[]", flags=["-o=base64"], content=b"- abc\n- [1]\n", mode=0o644),
         dict(name="front-matter", expr=".a = 5", flags=["--front-matter=process"], fm=2,
              content=b"---\na: 1\n---\nhello tail\nmore text\n", mode=0o644, ext=".md"),
+        # the text after the front matter is longer than any reader buffer (4 KiB bufio, 32 KiB io.Copy, 64 KiB pipes)
+        dict(name="front-matter-long-tail", expr=".a = 5", flags=["--front-matter=process"], fm=2,
+             content=b"---\na: 1\n---\n" + b"".join(b"line %05d of the body text\n" % i for i in range(320)), mode=0o644, ext=".md"),
+        dict(name="front-matter-long-head", expr=".k0100 = 5", flags=["--front-matter=process"], fm=2,
+             content=b"---\n" + b"".join(b"k%04d: value %d\n" % (i, i) for i in range(260)) + b"---\ntail after a long front matter\n" + b"x" * 600 + b"\n", mode=0o644, ext=".md"),
         dict(name="front-matter-no-result", expr="select(.a == 7)", flags=["--front-matter=process"], fm=2,
              content=b"---\na: 1\n---\nhello tail\n", mode=0o644, ext=".md"),
         dict(name="front-matter-extract", expr=".a = 6", flags=["--front-matter=extract"], fm=1,
